@@ -459,3 +459,20 @@ def relabel_pipeline(ctx):
                       "pipe creation orders x 2 junction creation orders x use_numba False/True; every res_* table joined on identity",
                 cases=res["cases"], witness=res.get("witness"),
                 replay={"handler": "bounded", "input": {"what": "relabel_pipeline"}} if not res["ok"] else None)
+
+
+VC = "pandapipes.component_models.valve_component"
+
+
+@unit("C06", "bounded/valve_internal_nodes", functions=[VC + ":Valve.get_internal_node_number"], engine="bounded")
+def valve_internal_nodes_bounded(ctx):
+    """bounded stand-in (np.unique(axis=0) + argsort inverse permutation is outside the SMT fragment): the wiring of
+    pipe-attached valves to their internal nodes must not depend on the order of the valve table"""
+    big = ctx.tier == "thorough"
+    inp = {"what": "valve_internal_nodes", "max_rows": 5 if big else 4}
+    res = venv_run("bounded.py", inp, timeout=3000)
+    ctx.bounded("each-pipe-valve-wired-to-the-internal-node-of-its-own-junction-pipe-pair", res["ok"],
+                "ALL valve tables with <= %d rows over {junction valve, 5 distinct / repeated (junction, pipe) pairs of pipe-attached "
+                "valves} in every order; int_nodes, group numbers and pi-row positions against the first-occurrence specification"
+                % inp["max_rows"], res["cases"], witness=res["witness"],
+                replay={"handler": "bounded", "input": inp} if not res["ok"] else None)
